@@ -553,7 +553,7 @@ func (c *ctx) genPackedStream(rng *common.RNG, big bool) (pk []byte, framed bool
 
 func (c *ctx) runCuts(rng *common.RNG) {
 	rec := c.rec
-	big := rng.Chance(1, 5)
+	big := rng.Chance(1, 3)
 	pk, framed, desc := c.genPackedStream(rng, big)
 	rec.Case(c.idx, fmt.Sprintf("cuts len=%d %s", len(pk), desc))
 	rec.Distinct(common.Hash64([]byte("cuts"), pk))
